@@ -123,7 +123,9 @@ def gen_cases(ctx):
               # a hard bound that is exactly zero, start point on it / within the 0.1% margin of it
               (0., -2., 0., -1.5, -0.5), (0., 0., 2., 0.5, 1.5), (-1e-9, -2., 0., -1.5, -0.5), (1e-9, 0., 2., 0.5, 1.5), (-1., -2., 0., -1.5, -0.5),
               # finite hard bounds many orders of magnitude wider than an ordinary plausible box
-              (1., -1e12, 1e12, 0.3, 1.7), (1., -3e11, 1e12, 0.3, 1.7), (0.9, -1e13, 1e13, 0.1, 1.9)]
+              (1., -1e12, 1e12, 0.3, 1.7), (1., -3e11, 1e12, 0.3, 1.7), (0.9, -1e13, 1e13, 0.1, 1.9),
+              # an infinite start coordinate on a bounded variable (outside the hard bounds, whatever the other coordinates are - NaN included)
+              (inf, -2., 2., -1., 1.), (-inf, -2., 2., -1., 1.)]
     present = [(1, 1, 1, 1, 1), (0, 1, 1, 1, 1), (1, 0, 0, 1, 1), (1, 1, 1, 0, 0), (0, 1, 1, 0, 0), (1, 0, 0, 0, 0), (0, 0, 0, 1, 1), (1, 1, 1, 0, 1), (0, 0, 0, 0, 0), (1, 1, 0, 1, 1)]
     # D = 2: EVERY ordered pair of coordinate tuples with all vectors present (so that cross-coordinate effects of the
     # any()/sum() style tests are met), then random pairs/triples with the presence patterns
